@@ -728,9 +728,38 @@ fn classes(src: &str, ast: &Ast) -> Value {
     }
     let sliced_after_non_ascii = odd_width && has_sliced;
     let (mid, mlroot) = comment_mid_expression(src);
+    // C11i: the source starts with two or more line breaks (white space aside)
+    let lead: String = src.chars().take_while(|c| c.is_whitespace()).collect();
+    let leading_blank_lines = lead.matches('\n').count() >= 2;
+    // C11j: a comma directly followed (on its line) by a token that cannot start an expression
+    let mut comma_before_operator = false;
+    {
+        let mut after_comma = false;
+        for t in Lexer::new(src) {
+            use Token::*;
+            match t.token {
+                Whitespace | CommentMulti => continue,
+                Error => break,
+                Comma => {
+                    after_comma = true;
+                    continue;
+                }
+                Assign | Add | Multiply | Divide | Remainder | Power | Equal | NotEqual | Less | LessOrEqual | Greater
+                | GreaterOrEqual | And | Or | Arrow | AddAssign | SubtractAssign | MultiplyAssign | DivideAssign
+                | RemainderAssign | PowerAssign | Dot | Colon
+                    if after_comma =>
+                {
+                    comma_before_operator = true
+                }
+                _ => {}
+            }
+            after_comma = false;
+        }
+    }
     let _ = (wildcard, repr);   // C11a / C11b are fixed (koto e32ec60, 06483c8): no class, a recurrence is a violation
     json!({"sliced_after_non_ascii": sliced_after_non_ascii,
-           "comment_mid_expression": mid, "multi_line_chain_root": mlroot})
+           "comment_mid_expression": mid, "multi_line_chain_root": mlroot,
+           "leading_blank_lines": leading_blank_lines, "comma_before_operator": comma_before_operator})
 }
 
 fn mode_fmt(case: &Value) -> Value {
